@@ -565,6 +565,37 @@ def temps_for(fn, stmts) -> list:
     return out
 
 
+ABSTRACTION = (
+    "Abstract evaluation of the syntax tree (LDT, an extension of the decision-table evaluator sa/dtab.DT): the analysed function body / one loop iteration is "
+    "evaluated over symbolic inputs; every parameter and local starts as an uninterpreted symbol, values are structured terms (subscript, slice, call, linear "
+    "form, comparison, |/&, element of an iterable), literals of the source are folded; whenever a branch condition has an undetermined truth value the "
+    "evaluation forks, so the table of ALL valuations of the consulted conditions is enumerated (no path is sampled, no feasibility pruning, no solver); the verdict "
+    "holds for every value of the symbols. Nothing of the analysed package is imported, compiled or executed.")
+
+
+def declare(ctx: Ctx) -> None:
+    """state the abstraction and its bounds once per run (also when single rules are run by another property)"""
+    if ABSTRACTION not in ctx.explanations:
+        ctx.explain(ABSTRACTION)
+    ctx.assume("loops over a symbolic iterable are evaluated for ONE generic iteration: the element is universally quantified and locals that are read and written in the "
+               "body enter as arbitrary symbols (an inductive step from an unconstrained entry state); no fixpoint over several iterations is computed; loops over "
+               "literal sequences are unrolled; while-loops and other unsupported statements assign fresh unknown symbols to their targets")
+    ctx.assume("an expression the evaluator does not model (unknown call, attribute of an unknown object) becomes an opaque symbol named by its source text; a rule that "
+               "meets an opaque symbol where it needs structure reports an analysis gap, never a verdict")
+    ctx.assume("conditions are treated as independent atoms (all combinations enumerated, also infeasible ones): a violation is reported for a path whose condition set "
+               "is syntactically possible; tables are cut off at 3000 evaluations (then: analysis gap)")
+    ctx.assume("pageby_row ranges over {'column', 'first_row'} and new_page over {True, False} (the declared field types); the three-site table of R05.2 is complete for this domain")
+    und = "behaviour of a loop over several iterations beyond the one generic step (e.g. interplay of two consecutive boundaries), and of zero iterations of a symbolic loop"
+    if und not in ctx.not_decided:
+        ctx.undecided(und)
+
+
+def cover(ctx: Ctx, name: str, rows) -> None:
+    """record table sizes in the evidence: rows = [(valuation, ...)]"""
+    atoms = sorted({k for r in rows for k in r[0]})
+    ctx.extra.setdefault("abstract_evaluation", {})[name] = {"valuations_enumerated": len(rows), "conditions_consulted": len(atoms), "conditions": [a[:100] for a in atoms][:24]}
+
+
 def truth_in(v: dict, x):
     """truth value of a symbolic boolean under a valuation, None if undecided"""
     if isinstance(x, bool):
@@ -661,7 +692,9 @@ def _paginate_leaves(ctx: Ctx, short: str):
     def make():
         fi = ctx.pm.func(short)
         dt = LDT(ctx.pm, watch=_PAGINATE_WATCH)
-        return fi, dt, run_block(dt, fi.node.body, sym_env(fi), fi)
+        leaves = run_block(dt, fi.node.body, sym_env(fi), fi)
+        cover(ctx, short + " (whole body)", leaves)
+        return fi, dt, leaves
     return _cache(ctx, "paginate:" + short, make)
 
 
@@ -687,6 +720,7 @@ def _page_span(data):
 
 
 def r05_1(ctx: Ctx) -> None:
+    declare(ctx)
     pm = ctx.pm
     gh = pm.func("PageByStrategy._get_group_headers")
     gb = pm.func("PageByStrategy._detect_group_boundaries")
@@ -745,7 +779,9 @@ def _header_leaves(ctx: Ctx):
     def make():
         fi = ctx.pm.func("PageByStrategy._get_group_headers")
         dt = LDT(ctx.pm)
-        return fi, dt, run_block(dt, fi.node.body, sym_env(fi), fi)
+        leaves = run_block(dt, fi.node.body, sym_env(fi), fi)
+        cover(ctx, "PageByStrategy._get_group_headers (whole body)", leaves)
+        return fi, dt, leaves
     return _cache(ctx, "headers", make)
 
 
@@ -816,7 +852,9 @@ def _boundary_leaves(ctx: Ctx):
     def make():
         fi = ctx.pm.func("PageByStrategy._detect_group_boundaries")
         dt = LDT(ctx.pm, watch={"append"})
-        return fi, dt, run_block(dt, fi.node.body, sym_env(fi), fi)
+        leaves = run_block(dt, fi.node.body, sym_env(fi), fi)
+        cover(ctx, "PageByStrategy._detect_group_boundaries (whole body, one generic row)", leaves)
+        return fi, dt, leaves
     return _cache(ctx, "boundaries", make)
 
 
@@ -957,6 +995,7 @@ def _body_analysis(ctx: Ctx):
         level = levels[0]
         dt = LDT(pm, watch=_BODY_WATCH, skip_loops=[level])
         outer = run_block(dt, temps_for(fn, lp.body) + lp.body, sym_env(fi), fi)
+        cover(ctx, "PageRenderer._render_body (one boundary iteration from a symbolic entry state, level loop abstracted)", outer)
         snaps = [e[2] for v, env, eff, out in outer for e in eff if e[0] == "loop"]
         res = {"fi": fi, "lp": lp, "level": level, "dt": dt, "outer": outer, "snaps": snaps}
         body_names = set()
@@ -977,6 +1016,7 @@ def _body_analysis(ctx: Ctx):
             inner = run_block(dt2, [level], env0, fi)
             if any(e[0] == "iter" and e[1] is level and not (isinstance(e[2], (list, tuple)) and not e[2]) for v, env, eff, out in inner for e in eff):
                 res.update({"dt2": dt2, "inner": inner, "entry": entry})
+                cover(ctx, "PageRenderer._render_body (one level of the heading loop, carried locals symbolic)", inner)
                 break
         return res
     return _cache(ctx, "body", make)
@@ -987,6 +1027,7 @@ def _rel_row(v) -> bool:
 
 
 def r05_7(ctx: Ctx) -> None:
+    declare(ctx)
     _r05_7_compare(ctx)
     a = _body_analysis(ctx)
     if isinstance(a, Exception):
@@ -1111,6 +1152,7 @@ def _r05_7_compare(ctx: Ctx) -> None:
 
 
 def r05_4(ctx: Ctx) -> None:
+    declare(ctx)
     a = _body_analysis(ctx)
     if isinstance(a, Exception):
         ctx.gap("R05.4", f"_render_body could not be interpreted ({a})")
@@ -1287,6 +1329,7 @@ def _page_top(ctx: Ctx) -> None:
     try:
         dt = LDT(pm, watch=_BODY_WATCH)
         leaves = run_block(dt, temps_for(r.node, [lp]) + [lp], sym_env(r), r)
+        cover(ctx, "PageRenderer.render (page-top heading loop, one generic level)", leaves)
     except Unsupported as e:
         ctx.gap("R05.4", f"render: page-top heading loop could not be interpreted ({e})")
         return
@@ -1379,6 +1422,7 @@ def _guard_rows(pm, fi, node):
 
 def r05_2(ctx: Ctx) -> None:
     """shown(new_page, pageby_row) at render step 7 == at _render_body == columns removed in prepare_dataframe"""
+    declare(ctx)
     pm = ctx.pm
     tables = {}
     for short in ("PageRenderer.render", "PageRenderer._render_body"):
@@ -1391,6 +1435,7 @@ def r05_2(ctx: Ctx) -> None:
         for c in calls:
             try:
                 dt, rows = _guard_rows(pm, fi, c)
+                cover(ctx, f"{short} (conditions under which a spanning row is emitted)", rows)
             except Unsupported as e:
                 ctx.gap("R05.2", f"{short}: conditions of the spanning-row emission could not be evaluated ({e})")
                 continue
@@ -1419,6 +1464,7 @@ def r05_2(ctx: Ctx) -> None:
         try:
             dt = LDT(pm, watch={"update", "add", "extend", "append", "union"})
             leaves = run_block(dt, fn.body[:max(idx) + 1], sym_env(p), p)
+            cover(ctx, "prepare_dataframe_for_body_encoding (prefix up to the page_by column removal)", leaves)
             rows = []
             for v, env, eff, out in leaves:
                 removed = any(e[0] == "call" and e[1] in ("update", "add", "extend", "append", "union", "augBitOr", "augAdd") and e[3]
@@ -1475,6 +1521,7 @@ def _divider_verdict(ctx: Ctx, rule: str, fi, where: str, dt: LDT, v: dict, valu
 
 
 def r05_3(ctx: Ctx) -> None:
+    declare(ctx)
     pm = ctx.pm
     # 1. one literal everywhere
     for fi in pm.iter_funcs():
@@ -1518,6 +1565,7 @@ def r05_3(ctx: Ctx) -> None:
         try:
             dt = LDT(pm, watch={"_calculate_header_rows"}, skip_loops=skip)
             leaves = run_block(dt, temps_for(c.node, lp.body) + lp.body, sym_env(c), c)
+            cover(ctx, "calculate_row_metadata (one row of the row loop, column loop abstracted)", leaves)
         except Unsupported as e:
             ctx.gap("R05.3", f"calculate_row_metadata: row loop could not be interpreted ({e})")
             leaves = []
@@ -1605,6 +1653,7 @@ def _assigned_to(n, fn) -> list[str]:
 
 
 def _r05_6(ctx: Ctx) -> None:
+    declare(ctx)
     pm = ctx.pm
     short = "SublineStrategy.paginate"
     got = _paginate_leaves(ctx, short)
@@ -1652,6 +1701,7 @@ def _r05_6(ctx: Ctx) -> None:
     for call in calls:
         try:
             dt, rows = _guard_rows(pm, r, call)
+            cover(ctx, "PageRenderer.render (conditions under which the subline heading is rendered)", rows)
             argv = dt.ev(resolve(call.args[0], r.node), sym_env(r)()) if call.args else None
         except (Unsupported, NeedAtom) as e:
             ctx.gap("R05.6", f"render: conditions of the subline heading could not be evaluated ({e})")
@@ -1667,6 +1717,7 @@ def _r05_6(ctx: Ctx) -> None:
     try:
         dt = LDT(pm)
         leaves = run_block(dt, f.node.body, sym_env(f), f)
+        cover(ctx, "PageRenderer._format_group_header (whole body)", leaves)
     except Unsupported as e:
         ctx.gap("R05.6", f"_format_group_header could not be interpreted ({e})")
         return
@@ -1704,6 +1755,10 @@ def check(ctx: Ctx) -> None:
         "for every level. R05.5 heading rows are part of the first row's height and counted at group starts. R05.6 subline heading for every page, rendered whenever the page has "
         "one. R05.7 column-wise comparison of consecutive rows; at a boundary: segment from the old cursor, then headings, cursor advanced on every path.")
     ctx.assume("group values are compared via str() consistently (as the library does)")
+    ctx.assume("R05.1 range check: a condition on the row index inside the range loop is linear in the index, so it is decided exactly by evaluating it at the binding end "
+               "of the range (monotonicity), not by sampling")
+    ctx.assume("R05.2 / R05.6 guard tables quantify existentially over all conditions other than new_page / pageby_row (resp. 'the page has a subline heading'): "
+               "'can be shown under this setting'")
     ctx.undecided("correct heading placement for concrete group runs (depends on run-time page assignment)")
     r05_1(ctx)
     r05_2(ctx)
